@@ -198,11 +198,24 @@ func runE2E(op string, rep *hx.Report) (lines, impl []string, skipped string) {
 		}()
 	}
 	classes := []string{"a.test", "b.test", "c.test", "a.test", "b.test", "d.test", "x.unknown", "", "10.1.2.3", "fe80::1", "y.speedy.red", "z.after.blue", "home.lan", "fwd.lan", "aa.test.", "A.test"}
+	if get("focus") != "" {
+		// many simultaneous connections for the same two endpoints: their dials overlap
+		classes = []string{"a.test", "a.test", "a.test", "b.test"}
+	}
 	var conns []conn
 	for i := 0; i < nconn; i++ {
 		s := hx.Pick(r, classes)
 		conns = append(conns, conn{tag: i, sni: s})
 	}
+	// clients that go away inside the record header (port probes): they reach nobody, and they must
+	// not leave anything behind that later connections share
+	for k := 0; k < 6; k++ {
+		if c, err := net.Dial("tcp", rig.Lis.Addr().String()); err == nil {
+			c.Write(helloFor("a.test")[:k%5])
+			c.Close()
+		}
+	}
+	time.Sleep(30 * time.Millisecond)
 	results := make([]string, len(conns))
 	bulkBad := make([]string, len(conns))
 	locals := make([]string, len(conns))
@@ -423,6 +436,15 @@ func main() {
 			}
 			ops = append(ops, fmt.Sprintf("e2e mode=%s seed=%d conns=%d", []string{"legacy", "siding", "siding-addr"}[i%3], r.U64()%100000, n))
 		}
+		nf := 2
+		if f.Thorough() {
+			nf = 12
+		}
+		for i := 0; i < nf; i++ {
+			for _, mode := range []string{"siding-addr", "siding", "legacy"} {
+				ops = append(ops, fmt.Sprintf("e2e mode=%s seed=%d conns=%d focus=1", mode, r.U64()%100000, 64))
+			}
+		}
 		for i := 0; i < nu; i++ {
 			ops = append(ops, "office reset")
 			conn := 0
@@ -453,10 +475,28 @@ func main() {
 	conns := map[int]net.Conn{}
 	type boxKey struct{ id, key uint64 }
 	var made []boxKey
+	t0 := time.Now()
+	budget := 4 * time.Minute
+	if f.Thorough() {
+		budget = 25 * time.Minute
+	}
+	failedMode := map[string]bool{} // once a mode has shown a violation do not spend more time-outs on it
 	for _, op := range ops {
 		switch {
 		case strings.HasPrefix(op, "e2e "):
+			md := strings.Fields(op)[1]
+			if failedMode[md] {
+				continue
+			}
+			if time.Since(t0) > budget {
+				rep.Note("time budget reached, %s not run", op)
+				continue
+			}
+			nf := len(rep.OracleFailures)
 			l, im, skipped := runE2E(op, rep)
+			if len(rep.OracleFailures) > nf {
+				failedMode[md] = true
+			}
 			if skipped != "" {
 				rep.Note("skipped %s: %s", op, skipped)
 				continue
